@@ -74,7 +74,12 @@ pub fn replay_known_staged<C: DeserializeOwned>(
   want_match: bool,
   check: impl Fn(&C, &mut Stats) -> CheckResult,
 ) {
+  // development aid for sensitivity runs: measure what the generators find without the witnesses
+  let skip_fixed = std::env::var("VPROP_NO_WITNESS").is_ok();
   for e in &known.entries {
+    if skip_fixed && e.status == "fixed" {
+      continue;
+    }
     let Some(w) = &e.witness else { continue };
     let path = crate::engine::verif_root().join(w);
     if path.exists() && !stage.is_empty() && (read_replay(&path).stage == stage) != want_match {
